@@ -22,6 +22,7 @@ prop("C01", "Assignment fidelity: the destination receives exactly the source va
 
 prop("C02", "Non-interference: a rule changes only its own destination", [
     ("independent_rules_any_order", "independent_rules_any_order", "FULL STATEMENT, second sentence: a block of rules `obj.Fi = <literal or document path>` with pairwise distinct destination fields succeeds in every ordering; every ordering leaves the same objects, variables, counters and call log; in that state each destination field holds exactly what its rule alone writes, every other field of the object and every other object is as before (any user functions, any fuel, any number of rules)"),
+    ("context_variables_frame", "decode_binds_only_its_names", "context variables, program level: a decode changes the binding of no name other than those its rules bind (any program, any fuel)"),
     ("independent_block", "independent_block", "the induction behind it: the block leaves the destination object equal to the rules' writes applied one after another and touches nothing else"),
     ("writes_commute", "fold_upd_perm", "a sequence of writes to distinct fields gives the same object in every order (induction over permutations)"),
     ("example_two_rules", "e_block_is_independent", "not vacuous: the parsed program `obj.Id = \"lit\"; obj.Status = jso.n` meets the premises"),
@@ -151,6 +152,14 @@ prop("C15", "A failing rule stops the decode and the failure is reported", [
 ])
 
 prop("C16", "Decode never panics, whatever the accepted program and the input", [
+    ("finite_programs_terminate", "finite_programs_terminate", "FULL STATEMENT (the model's side of `Decode returns whenever the loops are finite`): for every tree that fits the fuel -- the fuel exceeds the nesting depth and every counter loop has literal bounds whose Go iteration count is below the fuel it is run with; range loops need nothing -- every context whose error channel is not already out-of-fuel, and all user functions that do not forge that error, decode never reports out-of-fuel: the out-of-fuel outcome comes from nowhere but the fuel (induction on fuel through every driver and every helper of the decode path)"),
+    ("range_programs_terminate", "range_programs_terminate", "in particular a program without counter loops returns for any fuel above the nesting depth of its tree: range loops always terminate"),
+    ("result_does_not_depend_on_fuel", "decode_fuel_stable", "FUEL STABILITY: a decode that does not end out of fuel gives exactly the same context and result with any larger fuel (fifth induction on fuel through every driver): the fuel is only a recursion bound, and the result the any-fuel theorems speak about is one result"),
+    ("two_sufficient_fuels_agree", "decode_result_unique", "so any two fuels that are enough give the same context and result"),
+    ("finite_programs_result_is_fuel_independent", "finite_programs_result_is_fuel_independent", "and for a tree that fits fuel f every larger fuel gives what f gives"),
+    ("counter_loop_needs_go_many_steps", "cloop_run_cl", "a counter loop (any bounds, literal or not) runs out of fuel k only if Go's loop over the same header makes at least k iterations"),
+    ("harness_user_functions_are_fair", "testU_fair", "the harness's user functions never forge the out-of-fuel error"),
+    ("example_program_fits", "e_program_fits", "not vacuous: the parsed program with a counter loop, a condition and a call fits fuel 8; fuel 50 gives what fuel 8 gives"),
     ("rule_sequence_total", "rules_lz_app", "the model is a total function of tree, document and context: every list access of the decode path is a guarded match (no panic outcome exists in [err] besides the observation-only constructors)"),
     ("out_of_fuel_is_explicit", "follow_0", "running out of fuel is a distinguished error, excluded by the correspondence on Go-finite loops"),
     ("default_without_args_is_an_error", "default_arity", "default() without arguments is an error, not an index panic"),
@@ -195,6 +204,12 @@ prop("C18", "Builtin modifiers and getters compute what their documentation says
 ])
 
 prop("C19", "Context variables form a last-write-wins store visible to later rules", [
+    ("decode_binds_only_its_names", "decode_binds_only_its_names", "FULL STATEMENT (programs): a decode of any program, at any fuel, with any user functions, changes the binding of no name other than those its rules bind -- `ctx.name` destinations, loop counters, range keys and values, the two names of a cond-OK header (sixth induction on fuel through every driver: rebinding one name never disturbs another, for whole programs)"),
+    ("example_program_names", "e_program_keeps_other_names", "not vacuous: the parsed example program binds `i` and leaves `jso` and `obj` bound as they were"),
+    ("latest_binding_wins_in_every_history", "latest_binding_wins_in_every_history", "FULL STATEMENT (API histories): after any sequence of Set / SetStatic / SetVector / SetVectorNode and Reset calls a name resolves to its latest binding since the last Reset, whatever was done to other names (refinement of the context to an abstract map, induction over the history)"),
+    ("context_refines_a_map", "ctx_is_a_map", "the refinement itself: the abstraction of the context after a history is the abstract map the history builds"),
+    ("other_names_do_not_matter", "other_names_do_not_matter", "a history that only binds other names leaves a name's binding as it was"),
+    ("history_example", "history_example", "not vacuous: a five-call history with a rebinding and a Reset"),
     ("rule_binds_name", "ctx_rule_binds", "a rule `ctx.name = expr` binds name to the value of expr: vector inspector for nodes, static otherwise (null / absent nodes bind nothing)"),
     ("rule_binds_name_as_T", "ctx_rule_binds_as", "with `as T` / `.(T)` the registered inspector T"),
     ("unknown_inspector_is_error", "ctx_rule_unknown_ins", "an unregistered T is an error and binds nothing"),
